@@ -35,6 +35,22 @@ CLAIMED = {
         "contiguous on the peer stream); TCP; storage.get_event/notify_all_connected are stubs here (C05 covers fan-out).",
         "DESIGN.md §6 C20",
     ),
+    "C10": (
+        "Lean 4 invariant proof (coherence of the LMDB keyspace by induction over writer tasks) + differential correspondence of the full key list with the real WriterThread on real liblmdb",
+        "Proof: NostrRelay/Props/C10.lean defines Coh (every record is filed under its 32-byte id with all its index "
+        "entries; every key is the tombstone, a record, or an entry of a stored record under that record's own value) and "
+        "proves Coh init, Coh preserved by writeEvent of a fresh event, by deleteEvent of a stored event, by the "
+        "replaceable and kind-5 post-save loops, by del tasks and by aborted tasks, hence after every task list "
+        "(C10_coherent_reachable, C10_found_iff_stored). The model (Model/KV.lean: key layout, put/delete, scanner, "
+        "_post_save, GC walk) is compared with the real code after every task of generated histories: the whole LMDB key "
+        "list must be identical; the coherence predicate is also evaluated on the real keyspace with an independent "
+        "re-implementation of the documented layout.",
+        "Trusted: Lean kernel + standard axioms; the ctypes binding to liblmdb 0.9.31 (or the pure-Python engine) standing "
+        "in for py-lmdb; msgpack = pip's vendored msgpack; writer loop body run synchronously; Task.wf (32-byte ids) holds "
+        "for admitted events after the is_signed fix; non-string tag items are outside the model (oracle only; one known "
+        "finding); a cursor walk interleaved with deletions equals a walk over the snapshot (validated on the real engine).",
+        "DESIGN.md §6 C10",
+    ),
 }
 
 NOT_YET = "not reached yet in this round (model/tie not built); see DESIGN.md §10 staging — no weaker technique is substituted"
